@@ -6,6 +6,7 @@ import Goyang.Lemmas.TypesLinked
 import Goyang.Lemmas.TypesWfMain
 import Goyang.Lemmas.TypesSpecClaim
 import Goyang.Lemmas.TypesEnumRfc
+import Goyang.Lemmas.TypesFdRfc
 /-
 C09 — type names bind lexically and derived types inherit the whole chain.
 
@@ -67,10 +68,11 @@ What is proved (all for unbounded inputs):
 * one side condition tied to its sub-model's specification: `resolve_enum_rfc`, `resolve_bits_rfc`
   (the enum / bit table of an error-free resolution holds exactly the values `Spec.Enum.assign` /
   `table` of RFC 7950 sections 9.6.4.2 / 9.7.4.2 give the written members, through C14's `text_fold`;
-  Lemmas/TypesEnumRfc.lean).
+  Lemmas/TypesEnumRfc.lean), `resolve_fd_rfc` (the fraction-digits of an error-free resolution are the
+  written integer, which lies in 1 … 18, through C15's `asRangeInt_exact`; Lemmas/TypesFdRfc.lean).
 Not proved / outside: the remaining side conditions `typeOk` are stated with the sub-models' functions
-(`Range.applyRange`, `Number.asRangeInt`, `Identity.findIdentityBase`), whose own specifications are
-the subject of C10 / C15 / C11; for a reference outside the claim (`¬ InsideClaim`: one of the six
+(`Range.applyRange` / `applyLength`, `Identity.findIdentityBase`), whose own specifications are
+the subject of C10 / C11; for a reference outside the claim (`¬ InsideClaim`: one of the six
 features is met below it, exactly the `noClaim` answers) the executable specification claims
 nothing — the relational theorems (`resolve_errors_iff` …) still apply wherever `UnambiguousBelow`
 holds; the executable specification's own reading of enum values (`assignValues`) is not tied to
@@ -1045,6 +1047,29 @@ theorem resolve_bits_rfc (env : Env) (fuel : Nat) (root : Mod) (scope : List Stm
   obtain ⟨h1, h2⟩ := Goyang.Lemmas.TypesEnumRfc.enumFold_rfc .bits "position" bs ms hform hwritten (hB bs hbs)
   exact ⟨_, by rw [hbi, hbs]; rfl, h1, h2⟩
 
+/-- **A resolved decimal64 carries the written fraction-digits, and they lie in 1 … 18** (the
+fraction-digits side condition tied to C15's reading of integer arguments, `asRangeInt_exact`): in an
+error-free resolution, if the nearest type statement of the chain that states fraction-digits writes
+them as the integer literal `l` (digits, no superfluous leading zeros), then `1 ≤ l.num ≤ 18` and the
+resolved type has exactly `l.num` fraction digits. -/
+theorem resolve_fd_rfc (env : Env) (fuel : Nat) (root : Mod) (scope : List Stmt) (t : Stmt)
+    (stack : List TypeKey) (y : YType) (ht : scopeKinds.contains t.kw = false)
+    (h : resolveTypeF env fuel root scope t stack = { ty := some y, errs := [] }) :
+    ∃ kind chain, DerivesFrom env.reg root scope t kind chain ∧
+      ∀ f, chainFractionDigits chain = some f →
+        ∀ l : Goyang.Spec.Number.Lit, l.digitsOK → l.ip ≠ [] → l.fp = none → l.noLeadingZero →
+          bytesOf f.arg = l.render →
+          1 ≤ l.num ∧ l.num ≤ 18 ∧ (y.fractionDigits : Int) = l.num := by
+  obtain ⟨kind, chain, hder, _, hF⟩ := Goyang.Lemmas.TypesFdRfc.resolve_chain_fd env fuel root scope t stack y ht h
+  refine ⟨kind, chain, hder, ?_⟩
+  intro f hf l hd hip hfp hz hw
+  obtain ⟨i, hi, hy⟩ := hF f hf
+  obtain ⟨h1, h2, h3⟩ := Goyang.Lemmas.TypesFdRfc.fd_written hd hip hfp hz hw hi
+  subst h1
+  refine ⟨h2, h3, ?_⟩
+  rw [hy]
+  omega
+
 /-! ## Non-vacuity: concrete schemas on which the hypotheses of the theorems hold
 
 The environments are written out (registry, include links) instead of being computed by `Env.of`,
@@ -1391,6 +1416,19 @@ example : (tyR.all "enum").map (fun e => (bytesOf e.arg, (e.argOf? "value").map 
     = msR.map (fun p => (p.1, p.2.map Goyang.Spec.Number.Lit.render)) := by decide +kernel
 example : Goyang.Spec.Enum.table (msR.map fun p => (p.1, p.2.map Goyang.Spec.Number.Lit.num))
     = [([97], 0), ([98], 5), ([99], 6)] := by decide +kernel
+
+/-! ### `resolve_fd_rfc` on `type decimal64 { fraction-digits 3; }` -/
+def tyF : Stmt := S "f.yang" "type" "decimal64" 2 10 [S "f.yang" "fraction-digits" "3" 2 30 []]
+def leafF : Stmt := S "f.yang" "leaf" "l" 2 1 [tyF]
+def fM : Stmt := S "f.yang" "module" "f" 1 1 [S "f.yang" "prefix" "pf" 1 10 [], leafF]
+def mF : Mod := ⟨0, fM⟩
+def envF : Env := { reg := { mods := [mF], modules := [("f", 0)] }, link := {}, dict := [], fuel := 10 }
+def litF : Goyang.Spec.Number.Lit := ⟨none, [3], none⟩
+example : (resolveTypeF envF 10 mF [leafF, fM] tyF []).errs = [] ∧
+    ((resolveTypeF envF 10 mF [leafF, fM] tyF []).ty.map (·.fractionDigits)) = some 3 := by decide +kernel
+example : litF.digitsOK ∧ litF.ip ≠ [] ∧ litF.fp = none ∧ litF.noLeadingZero :=
+  ⟨⟨by decide, by decide⟩, by decide, rfl, by decide⟩
+example : bytesOf "3" = litF.render := by decide +kernel
 
 end Ex
 
